@@ -326,7 +326,11 @@ def r5(ctx, F, bs):
         l = op['p']['l']
         for _ in range(8):
             ds = r.defs.get(l, [])
-            if len(ds) == 1 and ds[0][2] == 'assign' and ds[0][3]['k'] in ('ref', 'use') and not R.local_name(l):
+            # an unnamed temporary, or a named local that is nothing but another local moved/copied into it (the parameter
+            # of a spliced helper, `let x = y;`)
+            pure_rename = len(ds) == 1 and ds[0][2] == 'assign' and ds[0][3]['k'] == 'use' and not ds[0][4] and \
+                ds[0][3]['ops'][0].get('p') is not None and not ds[0][3]['ops'][0]['p']['proj']
+            if len(ds) == 1 and ds[0][2] == 'assign' and ds[0][3]['k'] in ('ref', 'use') and (not R.local_name(l) or pure_rename):
                 src = ds[0][3].get('p') or ds[0][3]['ops'][0].get('p')
                 if src is None:
                     break
